@@ -74,9 +74,8 @@ def decodeG1c (a : Bytes) : Except Err G1Pt :=
   | .ok .inf => .ok .inf
   | .ok (.aff x y) => if onCurveG1 x y && inSubgroupG1 x y then .ok (.aff x y) else .error .point
 
-/-- blst `POINTonE1_Deserialize_Z` on 96 bytes + the wrapper's `is_on_curve`. -/
-def decodeG1u (a : Bytes) : Except Err G1Pt :=
-  if a.length ≠ 96 then .error .eof else
+/-- blst `POINTonE1_Deserialize_Z` on 96 bytes (`blst_p1_deserialize`): dispatch on the flag bits. -/
+def deserializeG1 (a : Bytes) : Except Err G1Pt :=
   match a with
   | [] => .error .point
   | b0 :: t =>
@@ -94,6 +93,14 @@ def decodeG1u (a : Bytes) : Except Err G1Pt :=
     else if b0 / 64 % 2 = 1 then
       if b0 % 64 = 0 && allZero t then .ok .inf else .error .point
     else .error .point
+
+/-- `G1Affine::from_uncompressed` (96 bytes, the RawBytes format): deserialize, then `is_on_curve`. -/
+def decodeG1u (a : Bytes) : Except Err G1Pt :=
+  if a.length ≠ 96 then .error .eof else
+  match deserializeG1 a with
+  | .error e => .error e
+  | .ok .inf => .ok .inf
+  | .ok (.aff x y) => if onCurveG1 x y then .ok (.aff x y) else .error .point
 
 /-- Canonical compressed encoding (blst `blst_p1_affine_compress`). -/
 def encodeG1c : G1Pt → Bytes
@@ -138,9 +145,8 @@ def decodeG2c (a : Bytes) : Except Err G2Pt :=
   | .ok .inf => .ok .inf
   | .ok (.aff x y) => if onCurveG2 x y && inSubgroupG2 x y then .ok (.aff x y) else .error .point
 
-/-- blst `POINTonE2_Deserialize_Z` on 192 bytes (`x.c1 ‖ x.c0 ‖ y.c1 ‖ y.c0`) + `is_on_curve`. -/
-def decodeG2u (a : Bytes) : Except Err G2Pt :=
-  if a.length ≠ 192 then .error .eof else
+/-- blst `POINTonE2_Deserialize_Z` on 192 bytes (`x.c1 ‖ x.c0 ‖ y.c1 ‖ y.c0`). -/
+def deserializeG2 (a : Bytes) : Except Err G2Pt :=
   match a with
   | [] => .error .point
   | b0 :: t =>
@@ -157,6 +163,14 @@ def decodeG2u (a : Bytes) : Except Err G2Pt :=
     else if b0 / 64 % 2 = 1 then
       if b0 % 64 = 0 && allZero t then .ok .inf else .error .point
     else .error .point
+
+/-- `G2Affine::from_uncompressed` (192 bytes): deserialize, then `is_on_curve`. -/
+def decodeG2u (a : Bytes) : Except Err G2Pt :=
+  if a.length ≠ 192 then .error .eof else
+  match deserializeG2 a with
+  | .error e => .error e
+  | .ok .inf => .ok .inf
+  | .ok (.aff x y) => if onCurveG2 x y then .ok (.aff x y) else .error .point
 
 def encodeG2c : G2Pt → Bytes
   | .inf => 192 :: List.replicate 95 0
@@ -189,6 +203,15 @@ def Fmt.g2Size : Fmt → Nat
 def decodeG1 : Fmt → Bytes → Except Err G1Pt
   | .processed, a => decodeG1c a
   | .rawBytes, a => decodeG1u a
+
+/-- `<G1Projective as ProcessedSerdeObject>::write`. -/
+def encodeG1 : Fmt → G1Pt → Bytes
+  | .processed => encodeG1c
+  | .rawBytes => encodeG1u
+
+def encodeG2 : Fmt → G2Pt → Bytes
+  | .processed => encodeG2c
+  | .rawBytes => encodeG2u
 
 def decodeG2 : Fmt → Bytes → Except Err G2Pt
   | .processed, a => decodeG2c a
